@@ -39,6 +39,9 @@ KIND_VERB = {"get": b"CURCH", "press": b"SPACK", "set": b"SPACK", "getwc": b"GET
 GATED = {"press", "set", "getwc", "setwc", "rem"}
 
 
+FOREIGN_SPA = b"SPAfe:fe:fe:fe:fe:fe"
+
+
 def strategy(tier):
     # [arrival, kind, retry count, cancel-after]: cancel-after > 0 = the caller's task is cancelled that long after its call
     # (e.g. a client's own time limit) - whatever it held must be released for the others
@@ -50,14 +53,18 @@ def strategy(tier):
     jitter = st.one_of(st.just([]), st.lists(st.sampled_from([0.0, 0.0, 0.01, 0.03, 0.05]), min_size=1, max_size=7))
     # a stream of datagrams nobody claims (start s, count, gap ms): keeps the receive queue non-empty while callers wait
     noise = st.one_of(st.none(), st.none(), st.tuples(st.sampled_from([0.0, 0.5, 2.0]), st.integers(10, 60), st.sampled_from([50, 100, 200])).map(list))
+    # another in.touch2 module on the network that addresses datagrams to OUR client identifier (replies of every kind, ping answers)
+    foreign = st.sampled_from([False, False, False, True])
     return st.builds(
-        lambda cs, s2c, c2s, j, gate, nz, mode, hole: dict({"callers": cs, "s2c": s2c, "c2s": c2s, "jitter": j, "gate": gate}, **({"noise": nz} if nz else {}),
+        lambda cs, s2c, c2s, j, gate, nz, mode, hole, fg: dict({"callers": cs, "s2c": s2c, "c2s": c2s, "jitter": j, "gate": gate}, **({"noise": nz} if nz else {}),
+                                                            **({"foreign": True} if fg and gate in ("open", "outage") else {}),
                                                             **({"mode": "active"} if mode == "active" and gate != "open" else {}),
                                                             **({"hole": hole} if hole and gate == "open" and any(c[1] == "refresh" for c in cs) else {}),
                                                             **({"outage_age": [5.0, 6.5, 8.0, 9.5, 10.5, 12.0, 14.0, 20.0][(hole + len(cs) + len(s2c)) % 8]} if gate == "outage" else {})),
         st.lists(caller, min_size=1, max_size=8), st.lists(act, max_size=24),
         st.lists(st.sampled_from(["d", "d", "d", "x"]), max_size=10), jitter,
-        st.sampled_from(["open", "open", "open", "open", "stale-ping", "not-connected", "outage"]), noise, st.sampled_from(["idle", "active"]), st.sampled_from([0, 0, 1, 4, 7]))
+        st.sampled_from(["open", "open", "open", "open", "stale-ping", "not-connected", "outage"]), noise, st.sampled_from(["idle", "active"]), st.sampled_from([0, 0, 1, 4, 7]),
+        foreign)
 
 
 def _verb(datagram):
@@ -94,6 +101,18 @@ def run_case(case) -> Result:
                 set_config_mode(True)
                 await W.sleep(0.05)
             timeout, pause = GeckoConfig.PROTOCOL_TIMEOUT_IN_SECONDS, GeckoConfig.PAUSE_BETWEEN_RETRIES_IN_SECONDS
+            foreign_task = None
+            if case.get("foreign"):
+                bodies = [R.ping_response(), R.channel_response(7, 9), R.watercare_response(3), R.pack_response(), R.reminders_response([[1, 5]])]
+
+                async def foreign_stream():
+                    k_ = 0
+                    while True:
+                        for body in bodies:
+                            W.inject(W.transports[-1], R.frame(FOREIGN_SPA, clients.CLIENT_ID, body), ("10.0.0.77", 10022))
+                        k_ += 1
+                        await W.sleep(0.5)
+                foreign_task = asyncio.ensure_future(foreign_stream())
             if gate == "stale-ping":
                 spa._last_ping = W.clock.t - (GeckoConfig.PING_FREQUENCY_IN_SECONDS * 2 + 1)
             elif gate == "outage":
@@ -188,6 +207,8 @@ def run_case(case) -> Result:
                     raise t.exception()
             if noise_task is not None:
                 await noise_task
+            if foreign_task is not None:
+                foreign_task.cancel()
             if gate == "not-connected" and not res.violations:
                 # the connection's own periodic callers are behind the same gates: one full refresh period (idle table 120 s,
                 # active table 30 s) with the gate closed must not produce a single query of theirs.  (Not judged for an outage:
@@ -204,7 +225,8 @@ def run_case(case) -> Result:
                         why = "cancelled" if t.cancelled() else repr(t.exception())
                         res.fail(f"C06|library-task-died|{t.get_name()}", f"{t.get_name()} ended ({why}) while the generated callers ran")
             wire = [w for w in W.wire[w0:] if w[1] == "c2s"]
-            deliv = W.delivered[d0:]
+            # (what another module sends to our client identifier is not a reply of the connected spa)
+            deliv = [x for x in W.delivered[d0:] if (R.unframe(x[2]) or (None,))[0] != FOREIGN_SPA]
             by_task = {}
             for rec in lock.log:
                 by_task.setdefault(rec["task"], []).append(rec)
@@ -290,7 +312,7 @@ def run_case(case) -> Result:
                         break
                 # (judged only when nothing stale can be queued: no caller cancelled mid-answer, no duplicated / delayed / swapped
                 # datagrams - a left-over final segment of an older answer legitimately ends the attempt that meets it)
-                clean_stream = not cancelled_ix and not noise and all(a_ in ("deliver", "drop") for a_ in clients.decode_tape(case.get("s2c", [])))
+                clean_stream = not cancelled_ix and not noise and not case.get("foreign") and all(a_ in ("deliver", "drop") for a_ in clients.decode_tape(case.get("s2c", [])))
                 if rec["kind"] == "refresh" and clean_stream:
                     # a status attempt may end early, but only once the spa has finished the previous answer (its final segment was
                     # delivered): a new request while the old answer is still streaming means two requests in flight
@@ -322,7 +344,7 @@ def run_case(case) -> Result:
                 # Attribution of replies to attempts by time only works while nothing piles up in the receive queue: an abandoned
                 # multi-segment answer (cancelled or failed status request) or a noise stream leaves datagrams that delay everything
                 # behind them by up to 6 x (poll + J) each.  (Whether a status transfer succeeds under loss is C01's question.)
-                backlog = bool(noise) or bool(cancelled_ix) or any(c_[1] == "refresh" for c_ in case["callers"])
+                backlog = bool(noise) or bool(cancelled_ix) or any(c_[1] == "refresh" for c_ in case["callers"]) or bool(case.get("foreign"))
                 if "result" in rec and rec["kind"] != "refresh" and not backlog:
                     # (a stream of unclaimed datagrams lets a reply wait in the receive queue beyond any attempt window, so the
                     # attribution of replies to attempts by time is only judged without one)
@@ -347,6 +369,8 @@ def run_case(case) -> Result:
         res.label("lost-or-late-reply")
     if case.get("noise"):
         res.label("noise-stream")
+    if case.get("foreign"):
+        res.label("foreign-module-addresses-our-client-id")
     if stats["cancelled"]:
         res.label("caller-cancelled-mid-request")
     if case.get("hole"):
